@@ -79,83 +79,52 @@ def run(ctx, res):
     if f is None:
         raise BrokenAnalysis("my_crc32c_sse42 not compiled in this configuration")
     res.saw(f)
-    ev = APE.run(prog, cg, f, bound=APE.BOUND)
     bufp, lenp = f.params[0]["name"], f.params[1]["name"]
-    cases = set()
-    for p in ev.paths:
-        if p.end not in ("exit",):
+    # Shape-independent byte accounting: the function is evaluated abstractly with the length fixed to each of
+    # 0..39 (data bytes stay symbolic); for every length the CRC steps must consume exactly that many bytes, each at
+    # the running offset with the operand width of the step, chained through the running crc.
+    NLEN = 40 if ctx.tier == "quick" else 200
+    for n in range(NLEN):
+        ev = APE.APE(prog, cg, f, bound=8, start_env={lenp: ("c", n)}, max_paths=200000)
+        ev.run()
+        done = [p for p in ev.paths if p.end == "exit"]
+        sig = site(f, "len=%d(mod 8=%d)" % (n, n % 8)) if n < 16 else site(f, "len>=16:residue=%d" % (n % 8))
+        if not done:
+            res.bad("C17.R2", sig, "with the length fixed to %d no path returns (%d paths, ends %s)"
+                    % (n, len(ev.paths), sorted(set(p.end for p in ev.paths))), f.loc(f.body))
             continue
-        tag = None
-        for (a, b), v in p.cons.items():
-            if b == "switch":
-                tag = list(v)[0]
-        if tag is None:
-            continue
-        evs = [e for e in p.events if e.kind != "branch"]
-        off = 0
-        steps = []
-        crc = None
-        okchain = True
-        for e in evs:
-            if e.kind == "store" and e.a == "p":
-                b, o = APE.split_off(e.b)
-                if b == bufp or (b == "" and False):
-                    off = o
-            elif e.kind == "call" and e.a in WIDTH:
-                data = call_args(e.node)[1]
-                post = any(x["k"] == "UnaryOperator" and x.get("op") == "++" and not x.get("prefix", True) for x in walk(data))
-                rd = off - 1 if post else off
-                # the data operand must be a dereference of the cursor with the step's width
-                d = strip(data)
-                t = d.get("ct", d.get("t", ""))
-                wbytes = {"unsigned char": 1, "unsigned short": 2, "unsigned int": 4, "unsigned long": 8}.get(t.replace("const ", ""))
-                steps.append((WIDTH[e.a], rd, wbytes))
-                if crc is not None and e.b[0] != crc and not (APE.vstr(e.b[0]) == APE.vstr(crc)):
-                    okchain = False
-                crc = e.c
-        main = [s for s in steps if s[0] == 8]
-        tail = [s for s in steps if s[0] != 8]
-        base = 8 * len(main)
-        n = int(tag[1:]) if tag.startswith("#") else None
-        sig = site(f, "tail-case:%s" % tag)
-        if n is None:
-            # default label: len & 7 can only be 0..7
-            res.check(not tail, "C17.R2", sig, "default case consumes nothing", "default case consumes bytes")
-            continue
-        cases.add(n)
-        total = sum(s[0] for s in tail)
-        contiguous = True
-        cur = base
-        for w, rd, wb in tail:
-            if rd != cur or wb != w:
-                contiguous = False
-            cur += w
-        res.check(total == n and contiguous and okchain, "C17.R2", sig,
-                  "tail case %d consumes exactly %d bytes, each step at the running offset, chained through the running crc" % (n, n),
-                  "tail case %d consumes %d byte(s) %s: buffers of length = %d (mod 8) get a wrong checksum on the SSE4.2 path" %
-                  (n, total, "with steps (width, offset, operand width) %s" % tail if not contiguous or total != n else "but the crc chain is broken", n),
-                  f.loc(f.body), p.describe(f))
-        okmain = all(s[1] == 8 * i and s[2] == 8 for i, s in enumerate(main))
-        res.check(okmain, "C17.R2", site(f, "main-loop-step"), "main loop consumes 8 bytes at the cursor per step",
-                  "main loop steps %s" % main, f.loc(f.body))
-    res.check(cases == set(range(8)), "C17.R2", site(f, "tail-cases"), "tail switch has a case for every residue 0..7",
-              "tail switch lacks cases %s" % sorted(set(range(8)) - cases), f.loc(f.body))
-    # loop trip count len / 8 and residue len & 7
-    loops = [n for n in walk(f.body) if n["k"] == "ForStmt"]
-    okl = False
-    for L in loops:
-        c = strip(L["cond"])
-        if c["k"] == "BinaryOperator" and c["op"] == "<" and canon(c["kids"][1]) in ("(%s/#8)" % lenp,):
-            ini = L.get("init")
-            z = ini and [d for d in ini.get("decls", []) if const_val(d.get("init")) == 0]
-            inc = strip(L["inc"])
-            okl = bool(z) and inc["k"] == "UnaryOperator" and inc["op"] == "++"
-    res.check(okl, "C17.R2", site(f, "main-loop-count"), "main loop runs len/8 times", "main loop trip count is not len/8", f.loc(f.body))
-    sw = [n for n in walk(f.body) if n["k"] == "SwitchStmt"]
-    masks = [n for n in walk(f.body) if n["k"] == "CompoundAssignOperator" and n.get("op") == "&=" and canon(n["kids"][0]) == lenp and const_val(n["kids"][1]) == 7]
-    res.check(len(sw) == 1 and (canon(sw[0]["cond"]) in ("(%s&#7)" % lenp,) or (canon(sw[0]["cond"]) == lenp and len(masks) == 1)),
-              "C17.R2", site(f, "tail-residue"), "tail switch is on len & 7", "tail switch is not on len & 7", f.loc(f.body))
-
+        for p in done:
+            off = 0
+            steps = []
+            crc = None
+            okchain = True
+            for e in p.events:
+                if e.kind == "store" and e.a == "p":
+                    b, o = APE.split_off(e.b)
+                    if b == bufp:
+                        off = o
+                elif e.kind == "call" and e.a in WIDTH:
+                    data = call_args(e.node)[1]
+                    post = any(x["k"] == "UnaryOperator" and x.get("op") == "++" and not x.get("prefix", True) for x in walk(data))
+                    rd = off - 1 if post else off
+                    d = strip(data)
+                    t = d.get("ct", d.get("t", ""))
+                    wbytes = {"unsigned char": 1, "unsigned short": 2, "unsigned int": 4, "unsigned long": 8}.get(t.replace("const ", ""))
+                    steps.append((WIDTH[e.a], rd, wbytes))
+                    if crc is not None and APE.vstr(e.b[0]) != APE.vstr(crc):
+                        okchain = False
+                    crc = e.c
+            total = sum(s_[0] for s_ in steps)
+            contiguous = True
+            cur = 0
+            for w, rd, wb in steps:
+                if rd != cur or wb != w:
+                    contiguous = False
+                cur += w
+            res.check(total == n and contiguous and okchain, "C17.R2", sig,
+                      "a buffer of %d bytes is consumed exactly once, in order, through chained CRC steps" % n,
+                      "for a buffer of %d bytes the SSE4.2 path consumes %d byte(s) with steps (width, offset, operand width) %s%s: such buffers get a wrong checksum "
+                      "(or memory outside the buffer is read)" % (n, total, steps[-6:], "" if okchain else ", crc chain broken"), f.loc(f.body), p.describe(f))
     # ---- R2 slicing ---------------------------------------------------------------------
     s = prog.need("my_crc32c_slicing", su)
     res.saw(s)
